@@ -226,6 +226,21 @@ def run(pid, tier, seed, replay=None):
         known_hits |= set(pknown)
         tv_states += pstates
         pl = {"pipelines_run_through_capture_or_communicate": len(presults), "note": pnote}
+    if replay is None and pid == "C02":
+        # capture()/communicate() of pipelines that are given input data: the data reaches the first command (once,
+        # in order, then end-of-file) however the pipeline was put together, and what comes back is what the last wrote
+        from . import api_scen, c_api
+        pscs = [x for x in api_scen.fam_pipelines(seed, tier == "thorough")
+                if x["term"] in ("capture", "communicate") and x["stdin"] == "data" and not x.get("stream")]
+        special = [x for x in pscs if x.get("split_config") or x.get("clone_run") or x.get("config_after") or x.get("tree")]
+        rest = [x for x in pscs if x not in special]
+        pscs = special + (rest if tier == "thorough" else rest[::3])
+        presults, pstates, pblocks, pnote = c_api.run_api(pid, tier, seed, pscs, "C02pl")
+        pnew, pknown, pothers, _, _ = c_api.classify(pid, pscs, presults, pblocks, PREFIX[pid], "api")
+        uniq += pnew
+        known_hits |= set(pknown)
+        tv_states += pstates
+        pl = {"pipelines_with_input_data_run_through_capture_or_communicate": len(presults), "note": pnote}
     samples = []
     for bid in list(blk)[:2]:
         samples.append({"exchange": bid, "scenario": by_id.get(bid.split("#")[0]),
